@@ -15,12 +15,16 @@ RULE = ("Hypothesis-generated programs over the whole MutableMapping/MutableSequ
         "another class, and non-sequences), applied at roots and nested handles of all 18 classes; "
         "tuples/bytes are mixed into stored values. Each call's outcome (plain result or exception "
         "family) is compared with the same call on a built-in dict/list; after every mutator, also a "
-        "raising one, the independently read resource must equal the model. Non-trivial case = "
+        "raising one, the independently read resource must equal the model. An extra 'ordered' part "
+        "(JSON classes; one object, no update/reset, no outside writer) also compares dict key "
+        "order and popitem() LIFO order exactly. Non-trivial case = "
         "contains a call that is a mixin method, a slice, an out-of-range/negative index, a missing "
         "key, a comparison or any call at depth>=1; distinct = distinct set of (op, argument shape, "
         "depth, outcome kind) signatures plus class.")
 ASSUMPTIONS = [
-    "documented deviations encoded in the model: dict pop() default None, reset(), key order ignored, "
+    "documented deviations encoded in the model: dict pop() default None, reset(), key order ignored "
+    "(except in the 'ordered' part, whose histories contain no bulk update and no second writer; key "
+    "order across a re-open or in the file is not asserted), "
     "tuples/bytes stored as lists, forbidden data not generated here (C11)",
     "exceptions compared by family: KeyError/IndexError/ValueError/TypeError/AttributeError",
     "Redis/MongoDB/Zarr via fakes",
@@ -32,7 +36,41 @@ OTHER = {"dict": ["JSONDict", "BufferedJSONDict", "RedisDict", "JSONAttrDict"],
 
 def shards(tier):
     reps = 1 if tier == "quick" else 8
-    return [{"cls": c.name, "rep": r} for c in ALL for r in range(reps)]
+    out = [{"cls": c.name, "rep": r} for c in ALL for r in range(reps)]
+    # "ordered" part: histories in which a built-in dict's key order is the specified one
+    out += [{"cls": c.name, "rep": r, "part": "ordered"} for c in ALL if c.backend == "json"
+            for r in range(max(1, reps // 2))]
+    return out
+
+
+ORD_MUT = {"dict": ["setitem", "delitem", "pop", "popitem", "clear", "setdefault", "setitem", "popitem"],
+           "list": ["setitem", "delitem", "insert", "append", "extend", "iadd", "remove", "pop",
+                    "reverse", "clear"]}
+ORD_READ = {"dict": ["iter", "keys", "values", "items", "call", "getitem", "popitem_probe"],
+            "list": ["call", "getitem", "iter"]}
+
+
+def _gen_step_ordered(ci, dom):
+    """One object on one file, no bulk merges (update/reset) and no outside writer: insertion order
+    of every dict is then exactly the built-in dict's, so iteration order and popitem() (LIFO) are
+    compared exactly, at every depth."""
+    def g(draw, w):
+        if not w.handles:
+            return {"t": "new", "r": 0, "id": w.next_id()}
+        c = draw(st.integers(0, 9))
+        if c < 2:
+            s = gen.draw_take(draw, w)
+            if s is not None:
+                return s
+        hi = gen.pick_handle(draw, w)
+        if hi is None:
+            return None
+        k = w.handles[hi].kind
+        if c < 7:
+            return gen.draw_mutator(draw, w, hi, dom, methods=ORD_MUT[k], p_raise=1)
+        ms = [m for m in ORD_READ[k] if m != "popitem_probe"]
+        return gen.draw_read(draw, w, hi, dom, methods=ms)
+    return g
 
 
 def _gen_step(ci, dom):
@@ -150,14 +188,15 @@ def run_shard(spec, seed, tier, active):
         draw = data.draw
         init = draw(st.one_of(st.just(ABSENT), dom.doc(ci.kind), dom.doc(ci.kind)))
         sigs = set()
-        g = _gen_step(ci, dom)
+        ordered = spec.get("part") == "ordered"
+        g = _gen_step_ordered(ci, dom) if ordered else _gen_step(ci, dom)
         plan_operands = draw(st.booleans())
 
         def gstep(dr, w):
             w.plan_operands = plan_operands
             return g(dr, w)
 
-        w = wm.run_generated(ID, ci, [init], gstep, draw, max_steps)
+        w = wm.run_generated(ID, ci, [init], gstep, draw, max_steps, **({"ordered": True} if ordered else {}))
         nt = False
         cnt = {}
         # re-derive signatures from the log (outcome kind unknown post hoc: use model replay-free shape)
@@ -172,6 +211,10 @@ def run_shard(spec, seed, tier, active):
             cnt[f"{sg[0]}.{m}"] = cnt.get(f"{sg[0]}.{m}", 0) + 1
         cnt.update({f"raised={k}": v for k, v in w.events.items() if isinstance(k, str) and k.startswith("raise")})
         cnt["ops_raising_in_model"] = w.events.get("model_raise", 0)
+        if ordered:
+            cnt["ordered_part_cases"] = 1
+            nt = nt and any(s["t"] == "op" and s["m"] in ("iter", "keys", "items", "values", "call", "popitem")
+                            for s in w.log)
         sample = {"class": ci.name, "initial": repr(init), "steps": w.log[:14]} if nt else None
         acc.case([h64(ci.name, sorted(map(repr, sigs)))] if nt else (), sample, cnt)
 
